@@ -16,7 +16,7 @@
 -/
 import Rtp.Proofs.Packetizer
 namespace Rtp.Props.C06
-open Rtp Rtp.Model Rtp.Model.Packetizer Rtp.Pred.C06 Rtp.Proofs.Packetizer
+open Rtp Rtp.Model Rtp.Model.Packetizer Rtp.Pred.C06 Rtp.Proofs.Packetizer Rtp.Spec.AbsSendTimeValue
 
 private theorem wf_parts {cfg : Packetizer} {ops : List PkOp} (h : wf cfg ops = true) :
     64 ≤ cfg.mtu.toNat ∧ cfg.pt.toNat < 128 ∧ AbsValid cfg ∧ ops.all opWf = true := by
@@ -48,6 +48,50 @@ theorem c06_fields (cfg : Packetizer) (ops : List PkOp) (h : wf cfg ops = true) 
 theorem c06_abs (cfg : Packetizer) (ops : List PkOp) (h : wf cfg ops = true) :
     absWalk cfg.absId ops (cfg.run ops) = true :=
   run_abs cfg (wf_parts h).2.2.1 ops (wf_parts h).2.2.2
+
+/-- **c06_abs_value.** What the element holds, in the terms of the abs-send-time specification
+    rather than of the Go code: the 24-bit big-endian 6.18 fixed-point number of seconds
+    `absValue ns` = the NTP time of the instant in units of 2^-18 s modulo 64 s, for every clock
+    reading (`ns` = `uint64(t.UnixNano())`, i.e. the Unix time in nanoseconds whenever that is ≥ 0). -/
+theorem c06_abs_value (now : Int64) : absSendTimeBytes now = be24n (absValue now.toUInt64.toNat) :=
+  abs_bytes_spec now
+
+/-- 1985-06-23 09:00:00 UTC (the instant of the repo's own test): 0x400000 -/
+example : absSendTimeBytes 488365200000000000 = [0x40, 0, 0] ∧ absValue 488365200000000000 = 0x400000 := by
+  decide
+
+/-- **c06_ts_closed.** The running timestamp after any history is the start timestamp plus the
+    samples of the non-empty Packetize calls plus the skipped samples (mod 2^32) — unconditionally;
+    together with `c06_ts` (every packet of a call carries the running timestamp at the time of the
+    call) this is the closed form of the timestamp clause: the packets of the call that follows
+    the history `ops` carry `cfg.ts + elapsed ops`. -/
+theorem c06_ts_closed (cfg : Packetizer) (ops : List PkOp) : (execP cfg ops).ts = cfg.ts + elapsed ops :=
+  execP_ts cfg ops
+
+/-- … spelled out for the packets of one further call -/
+theorem c06_ts_next_call (cfg : Packetizer) (ops : List PkOp) (pay : UInt16 → Bytes → List Bytes)
+    (payload : Bytes) (samples : UInt32) (now : Int64)
+    (h : wf cfg (ops ++ [.packetize pay payload samples now]) = true) (hne : payload.isEmpty = false) :
+    ∀ q ∈ ((execP cfg ops).packetize pay payload samples now).2.1, q.ts = cfg.ts + elapsed ops := by
+  have hw := wf_parts h
+  have hall : ops.all opWf = true := by
+    have := hw.2.2.2; simp only [List.all_append, Bool.and_eq_true] at this; exact this.1
+  have hv0 : AbsValid cfg := hw.2.2.1
+  have hv : AbsValid (execP cfg ops) := by
+    clear h hw
+    revert hv0
+    generalize cfg = p
+    intro hv0
+    induction ops generalizing p with
+    | nil => exact hv0
+    | cons op ops ih =>
+      simp only [List.all_cons, Bool.and_eq_true] at hall
+      exact ih hall.2 _ (step_absValid p hv0 op hall.1)
+  intro q hq
+  rw [packetize_eq pay _ hv payload hne] at hq
+  have := List.all_eq_true.mp (mkPkts_ts (execP cfg ops) _ _ _) q hq
+  rw [← execP_ts]
+  simpa using this
 
 /-- **c06_mtu.** If the payloader kept every fragment within the budget it was handed, every
     packet's `MarshalSize`, and the length of what `Marshal` returns, is at most the MTU. -/
